@@ -323,6 +323,23 @@ def patched(module, **attrs):
                 module.__dict__[k] = v
 
 
+@contextlib.contextmanager
+def patched_attr(obj, **attrs):
+    """Temporarily replace attributes of a class/object."""
+    saved = {k: obj.__dict__.get(k, None) for k in attrs}
+    had = {k: k in obj.__dict__ for k in attrs}
+    for k, v in attrs.items():
+        setattr(obj, k, v)
+    try:
+        yield
+    finally:
+        for k in attrs:
+            if had[k]:
+                setattr(obj, k, saved[k])
+            else:
+                delattr(obj, k)
+
+
 # --------------------------------------------------------------------------- closed-form linalg (d <= 2)
 
 
